@@ -40,6 +40,28 @@ def generated_graph(dsw, rng, k, fam=None):
     return acc, t, fam
 
 
+def large_order_graph(dsw, rng, k=8):
+    """A generated graph of order 8 (65 536 vertices; vertex indices beyond 2^15) from a run-limit / GC filter mask."""
+    n = 4 ** k
+    idx = np.arange(n)
+    digits = np.stack([(idx // 4 ** (k - 1 - i)) % 4 for i in range(k)], axis=1)
+    gc = ((digits == 1) | (digits == 2)).sum(axis=1)
+    run = rng.choice([2, 3])
+    ok = np.ones(n, dtype=bool)
+    for i in range(k - run):
+        same = np.ones(n, dtype=bool)
+        for j in range(1, run + 1):
+            same &= digits[:, i] == digits[:, i + j]
+        ok &= ~same
+    lo, hi = rng.choice([(3, 5), (2, 6), (4, 4)])
+    ok &= (gc >= lo) & (gc <= hi)
+    out = monitored(dsw.connect_coding_graph, 10 ** 9, k, ok, rng.choice([1, 2]))
+    if out.kind != "ok":
+        return None
+    acc = np.asarray(out.value[1])
+    return acc if (acc >= 0).any() else None
+
+
 def repair_budget_reads(n, k):
     """Graph look-up budget, polynomial in the strand length (C10): >= 4x the worst ratio observed on the unchanged tree."""
     return 2 * n + 40 * k * (n + k + 1) + 100
